@@ -213,7 +213,7 @@ static Csr<double> pattern_values(size_t n, uint64_t mask, uint64_t salt) {
                               [](size_t i, double sum) { return sum + 1.0 + 0.25 * (double)i; });
 }
 static void sub_sched_exhaustive(const std::vector<int> &threads) {
-    long idx = 0; const uint64_t BATCH = 4096;
+    long idx = 0; const uint64_t BATCH = 1024;
     long stride5 = vf::thorough() ? 1 : vf::opt_int("stride5", 61);     // 5x5: all 2^20 patterns in thorough, a strided 1/61 sample (coprime to the batch) in quick
     for (size_t n = 1; n <= 5; ++n) {
         uint64_t nm = 1ULL << vf::offdiag_count(n); uint64_t stride = n == 5 ? (uint64_t)stride5 : 1;
